@@ -192,16 +192,18 @@ class GenericCallAdapter(Adapter):
         for kw in old_node.keywords:
             if kw.arg not in new_kwargs or new_kwargs[kw.arg].is_default:
                 # delete entries
+                old_argument = self.argument(old_value, kw.arg)
+                try:
+                    same_value = old_argument == self.argument(new_value, kw.arg)
+                except AttributeError:
+                    # the new value has no such argument (extra field of a pydantic model)
+                    same_value = False
+
                 yield Delete(
-                    (
-                        "update"
-                        if self.argument(old_value, kw.arg)
-                        == self.argument(new_value, kw.arg)
-                        else "fix"
-                    ),
+                    "update" if same_value else "fix",
                     self.context.file._source,
                     kw.value,
-                    self.argument(old_value, kw.arg),
+                    old_argument,
                 )
 
         old_node_kwargs = {kw.arg: kw.value for kw in old_node.keywords}
